@@ -597,6 +597,8 @@ def _pristine():
     """The worker's library state as first seen by the history shard; every history starts from it."""
     from ..explore import procstate
     if not _H_SNAP:
+        import celpy.c7nlib  # noqa: F401  -- everything the snapshot is to cover must be loaded before it is taken
+        import xlate.c7n_to_cel  # noqa: F401
         _H_SNAP.append(procstate.snapshot())
     procstate.restore(_H_SNAP[0])
 
